@@ -6,7 +6,7 @@ ROOT = os.path.dirname(os.path.dirname(os.path.abspath(__file__)))
 CONFIRM = "confirmed in the scratch worktree /tmp/mut/<id> (tools/confirm_mutant.sh): `go build ./...` ok; existing tests of the touched packages pass with the change (demo skipped; the authoring sub-agent also ran `go test ./x/... ./app/...`); the demonstration fails with the change and passes after `git checkout` of the changed source file"
 RUN = "tools/try_mutant.sh <id>: rebase the worktree onto /repo HEAD, then `VERIF_REPO=/tmp/mut/<id> VERIF_HARNESS_CMD=dev_<id> ./check <id> --tier quick` (same effect as `git -C /repo apply patch.diff`; a worktree was used so that builders running against /repo were not disturbed)"
 R = {
- "C01": None,
+ "C01": ("caught", "quick seed 1: monitor_fail=2 (FinalizeBlock panics 'division by zero' in the liquidity-incentive BeginBlocker once an epoch's gauges all count zero) -> VIOLATION impl-violation", ""),
  "C02": ("caught", "quick seed 1: corr_mismatch=2 monitor_fail=27 -> VIOLATION impl-violation", ""),
  "C03": ("caught", "quick seed 1: corr_mismatch=13 monitor_fail=13 -> VIOLATION impl-violation", ""),
  "C04": ("caught after strengthening", "first run: 232 cases, exit 0 (no generated swap ended exactly on an initialised tick with nothing remaining); after adding 'swap-to-tick' operations (amounts from the keeper's own ComputeMaxInAmtGivenMaxTicksCrossed, +-1) to harness/amm/gen.go: corr_mismatch=6 monitor_fail=41 (bookkeeping invariant false on the implementation's post-state) -> VIOLATION impl-violation", "harness/amm/gen.go swap-to-tick"),
@@ -15,7 +15,7 @@ R = {
  "C07": ("caught", "quick seed 1: corr_mismatch=1 monitor_fail=1 -> VIOLATION impl-violation", ""),
  "C08": ("caught after strengthening", "first run: 702 cases, exit 0 (no rejected item with >= 6 challengers); after the RejectShares corpus (k = 1..9 challengers, collateral remainders 0,1,k/2,k/2+1,k-1) in harness/dacommon/gen.go: corr_mismatch=7 monitor_fail=15 -> VIOLATION impl-violation", "harness/dacommon/gen.go RejectShares + pile-on"),
  "C09": ("caught", "quick seed 1: corr_mismatch=17 monitor_fail=20 -> VIOLATION impl-violation", ""),
- "C10": None,
+ "C10": ("caught after strengthening", "first run: 420 cases, exit 0 (the reward saver never held exactly zero of a denom while the multiplier was positive); after the corpusZeroSaver histories and the gen:sole-claim / gen:join-drained bias in harness/c10: corr_mismatch=2 monitor_fail=265 (saver no longer covers pending claims, paid above entitlement, a claim fails) -> VIOLATION impl-violation", "harness/c10 corpusZeroSaver + generator bias"),
  "C11": ("caught after strengthening", "first run: 363 histories, exit 0 (one channel pair only, so two legs never had equal sequences on different channels); after a second loop-back channel pair with aligned send sequences in harness/c11: corr_mismatch=33 monitor_fail=99 -> VIOLATION impl-violation", "harness/c11 second channel pair, aligned sequences"),
  "C12": ("caught", "quick seed 1: corr_mismatch=5, no monitor failure; the violation search (seed 102) found a monitor failure -> VIOLATION impl-violation", ""),
  "C13": ("caught after strengthening", "first run: exit 0 (the transfer-ban clause was not exercised at all); after the ban scenarios of harness/c13/ban.go (plain/multi sends, share token, pool deposits, swaps in/out, fee claims, withdrawals) and monitor 7: monitor_fail=2 (a liquidity provider gains uvrise through fee claims) -> VIOLATION impl-violation", "harness/c13/ban.go + Econ/C13Check.v mon_ban"),
